@@ -5,6 +5,9 @@ package c02
 import (
 	"fmt"
 	"math"
+	"os"
+	"strconv"
+	"strings"
 
 	"pgregory.net/rapid"
 	"pipelined.dev/signal"
@@ -68,16 +71,39 @@ func Check(c *Case) kit.Result {
 	if !ok || c.C < 1 || c.Kr < 0 || c.C*c.Kr > 1<<22 || len(c.Steps) > 16 {
 		return kit.Result{}
 	}
-	if c.Huge > 0 && (c.C > 8 || c.Huge > 1<<26 || c.C*c.Huge > 1<<26 || kit.Info(c.T).Bits > 16) {
+	if c.Huge > 0 && (c.C > 8 || int64(c.Huge) > 1<<33 || int64(c.C)*int64(c.Huge) > 1<<32+64 || (int64(c.C)*int64(c.Huge) > 1<<26 && kit.Info(c.T).Bits > 8) || kit.Info(c.T).Bits > 16 ||
+		(strconv.IntSize == 32 && int64(c.C)*int64(c.Huge) > 1<<27)) {
 		return kit.Result{}
 	}
 	return f(c)
+}
+
+// memAvailable reads MemAvailable from /proc/meminfo (bytes; 0 when unknown).
+func memAvailable() int64 {
+	data, err := os.ReadFile("/proc/meminfo")
+	if err != nil {
+		return 0
+	}
+	for _, line := range strings.Split(string(data), "\n") {
+		if strings.HasPrefix(line, "MemAvailable:") {
+			f := strings.Fields(line)
+			if len(f) >= 2 {
+				kb, _ := strconv.ParseInt(f[1], 10, 64)
+				return kb << 10
+			}
+		}
+	}
+	return 0
 }
 
 // runHuge: windows of a root holding more than 2^24 samples. Only headers and the sharing of
 // the first and last sample of each window are checked (a full snapshot would cost gigabytes).
 func runHuge[T signal.SignalTypes](c *Case) (res kit.Result) {
 	C, K := c.C, c.Huge
+	if bytes := int64(C) * int64(K) * int64(kit.BitsOf[T]()/8); bytes > 1<<30 && memAvailable() < 4*bytes {
+		res.Class("skippedForLackOfMemory") // the storage stays virtual, but the machine must be able to promise it
+		return
+	}
 	root := signal.Alloc[T](signal.Allocator{Channels: C, Length: K, Capacity: K})
 	bits := kit.BitsOf[T]()
 	if h := kit.HdrOf(root); h != kit.ModelHdr(C, C*K, C*K, bits) {
